@@ -34,12 +34,13 @@ REAL = ["aiomysensors.Gateway.listen/send", "protocol_2x handlers and sleep buff
 STUB = ["event loop (SimLoop, virtual time)", "transport (SimTransport: latency tape)"]
 ASSUMPTIONS = ["FIFO ready queue as in asyncio; interleavings arise only from I/O completion times",
                "one listener task (the library's documented usage)"]
-REQUIRED_PROBES = ["send_during_write_same_key", "send_during_release_other_key", "send_between_writes"]
+REQUIRED_PROBES = ["send_during_write_same_key", "send_during_release_other_key", "send_between_writes",
+                   "race_with_write_fault"]
 SHRINK_LISTS = ("pre", "actors", "wakes", "tapes")
 
 
 def budget(tier):
-    return 3000 if tier == "quick" else 150_000
+    return 12000 if tier == "quick" else 150_000
 
 
 def wall(tier):
@@ -86,8 +87,13 @@ def gen(seed: int, i: int, tier: str) -> dict:
             sends.append({"at": at, "msg": [k[0], k[1], 1, 0, k[2], val()]})
             at += rng.choice([0.0, 1.0, 2.0, 3.0, 7.0])
         actors.append(sends)
+    tapes = {"w.lat": lat}
+    if rng.random() < 0.3:
+        # fault injection on release writes while sends race with the flush (1 = fails at once, 2 = fails after
+        # its suspension); the final wakes run after the tape is exhausted, i.e. fault-free
+        tapes["w.fail.set"] = [rng.choice([0, 0, 1, 2, 2]) for _ in range(rng.randint(1, 5))]
     return {"cfg": {"pin": proto}, "nodes": nodes, "children": children, "pre": pre, "wakes": wakes,
-            "actors": actors, "tapes": {"w.lat": lat}}
+            "actors": actors, "tapes": tapes}
 
 
 def valid(scn) -> bool:
@@ -183,7 +189,8 @@ def _run(scn, w: GwWorld, res: RunResult):
             raise t.exception()
     # the node(s) wake once more, sequentially, with no latency left on the tape
     final_mark = w.log("harness", "final-wakes")
-    for n in scn["nodes"]:
+    w.tapes.get("w.fail.set").items = w.tapes.get("w.fail.set").items[: w.tapes.get("w.fail.set").pos]  # faults stop
+    for n in scn["nodes"] + scn["nodes"]:
         w.transport.inbox.put_nowait(("line", wake_line(proto, n, 99)))
         w.loop.run_until_idle(10_000)
     lt.cancel()
@@ -191,12 +198,15 @@ def _run(scn, w: GwWorld, res: RunResult):
 
     # ---------------- oracle over the history ----------------
     res.ops = len(sends) + len(scn["wakes"])
+    injected = bool(w.faults.get("write_fail_early") or w.faults.get("write_fail_late"))
     for s in sends:
-        if s["exc"]:
+        if s["exc"] and not (injected and s["exc"] == "TransportFailedError"):
             res.violate(PROP, "no-unexpected-exception", f"send-raised:{s['exc']}", str(s))
     for kind, v in listener_events:
-        if kind == "exc":
+        if kind == "exc" and not (injected and v == "TransportFailedError"):
             res.violate(PROP, "no-unexpected-exception", f"listener-raised:{v}", "")
+    if injected:
+        res.probes["race_with_write_fault"] += 1
     wr = [r for r in w.writes[base:]]
     for r in w.writes[:base]:
         pass
@@ -211,6 +221,8 @@ def _run(scn, w: GwWorld, res: RunResult):
         by_key_sends.setdefault(s["key"], []).append(s)
     for key, ss in sorted(by_key_sends.items()):
         done = [s for s in ss if s["ret"] is not None and not s["exc"]]
+        if any(s["exc"] for s in ss):
+            continue  # an application send that itself failed: the caller was told, nothing is demanded for the key
         if not done:
             continue
         ws = sorted(by_key_writes.get(key, []))
